@@ -144,8 +144,8 @@ fn expand(r: &str, groups: usize, caps: &[Option<&str>]) -> Option<String> {
 fn space_for(tier: Tier) -> Space {
     let mut s = Space::new();
     match tier {
-        Tier::Quick => s.list("replacements<=4", count(4), 64),
-        Tier::Thorough => s.list("replacements<=6", count(6), 256),
+        Tier::Quick => s.list("replacements<=5", count(5), 64),
+        Tier::Thorough => s.list("replacements<=7", count(7), 512),
     };
     s
 }
